@@ -74,6 +74,15 @@ pub enum Op {
     /// From now on a tie between equally-earliest due tasks goes to the task
     /// whose queue name contains `pat` (empty: back to the seeded choice).
     Prefer { pat: String },
+    /// The CA moves to the second publication server (another krill
+    /// instance reached through the in-process transport): krill starts a
+    /// key roll whose new key publishes there; activating the roll finishes
+    /// the migration and empties the old publication point.
+    RepoMigrate { ca: String },
+    /// The CA moves (back) to the embedded publication server.
+    RepoMigrateBack { ca: String },
+    /// The second publication server becomes unreachable / reachable again.
+    RemoteDown { down: bool },
 }
 
 impl Op {
@@ -111,6 +120,9 @@ impl Op {
             Op::RawPublisher { .. } => "raw_publisher",
             Op::RawPublish { .. } => "raw_publish",
             Op::RawWithdraw { .. } => "raw_withdraw",
+            Op::RepoMigrate { .. } => "repo_migrate",
+            Op::RepoMigrateBack { .. } => "repo_migrate_back",
+            Op::RemoteDown { .. } => "remote_down",
         }
     }
 }
@@ -387,6 +399,33 @@ fn apply_inner(w: &mut World, op: &Op) -> Result<(), String> {
         }
         Op::Prefer { pat } => {
             w.prefer = if pat.is_empty() { None } else { Some(pat.clone()) };
+            Ok(())
+        }
+        Op::RepoMigrate { ca } => {
+            let req = k.ca_manager().get_ca(&h(ca)).map_err(e)?
+                .publisher_request();
+            let handle = req.publisher_handle().clone();
+            let r = w.ensure_remote();
+            // registered once; a second move to the same server re-uses it
+            let _ = r.krill.repo_manager().create_publisher(req, &r.actor);
+            let resp = r.krill.repo_manager().repository_response(
+                &handle, &r.krill).map_err(e)?;
+            let contact = api::admin::RepositoryContact::try_from_response(
+                resp).map_err(|e| e.to_string())?;
+            k.ca_manager().update_repo(h(ca), contact, true, &actor, &w.slow)
+                .map_err(e)
+        }
+        Op::RepoMigrateBack { ca } => {
+            let resp = k.repo_manager().repository_response(
+                &h(ca).convert(), &k).map_err(e)?;
+            let contact = api::admin::RepositoryContact::try_from_response(
+                resp).map_err(|e| e.to_string())?;
+            k.ca_manager().update_repo(h(ca), contact, true, &actor, &w.slow)
+                .map_err(e)
+        }
+        Op::RemoteDown { down } => {
+            crate::remote::UNREACHABLE.store(
+                *down, std::sync::atomic::Ordering::SeqCst);
             Ok(())
         }
         Op::RemovePublisher { publisher } => {
@@ -729,6 +768,12 @@ impl Gen {
                 }
                 9 if cas.len() >= 3 => return Op::DeleteCa { ca },
                 10 if !cas.is_empty() => {
+                    if w.cfg.allow_remote && self.rng.chance(1, 4) {
+                        if self.rng.chance(2, 3) {
+                            return Op::RepoMigrate { ca }
+                        }
+                        return Op::RepoMigrateBack { ca }
+                    }
                     if self.rng.chance(1, 2) {
                         return Op::RollInit { ca }
                     }
